@@ -270,7 +270,53 @@ fn case_cycle(t: &mut Tape, st: &mut Stats) -> Verdict {
     crate::props::c07::case_cycle_for("C08", t, st)
 }
 
+/// A text whose include directive names a file with a malformed line is refused with that line's error - every time it
+/// is parsed on this thread, not only the first time (a refused include leaves nothing behind).
+fn broken_include_twice(t: &mut Tape) -> Option<Verdict> {
+    let (bad, expect_kind, tag) = malformed_line(t);
+    if bad.contains("!include_files") {
+        return None;
+    }
+    let f = format!("{}/c08-broken-{:?}.ds", crate::hz::scratch_root(), std::thread::current().id()).replace(['(', ')'], "");
+    let pos = t.below(3);
+    let mut body = String::new();
+    for i in 0..3 {
+        if i == pos {
+            body.push_str(&bad);
+            body.push('\n');
+        }
+        body.push_str(&format!("k{} = set {}\n", i, i));
+    }
+    std::fs::write(&f, &body).expect("write broken include");
+    let text = format!("x = set 1\n!include_files {}\ny = set 2\n", f);
+    let mut seen: Vec<(String, Option<usize>)> = vec![];
+    for _ in 0..2 {
+        match guarded(|| parser::parse_text(&text)) {
+            Err((msg, loc)) => return Some(fail(&format!("C08/panic@{}", short_loc(&loc)), json!({"text": text, "included": body, "panic": msg, "location": loc}))),
+            Ok(Ok(v)) => return Some(fail(&format!("C08/broken-include/{}/accepted", tag), json!({"text": text, "included": body, "got_instructions": v.len()}))),
+            Ok(Err(e)) => {
+                let (kind, line, _) = kind_of(&e);
+                seen.push((kind.to_string(), line));
+            }
+        }
+    }
+    let want = (expect_kind.to_string(), Some(pos + 1));
+    if seen[0] != want || seen[1] != want {
+        return Some(fail(
+            &format!("C08/broken-include/{}/wrong-error", tag),
+            json!({"text": text, "included": body, "expected": format!("{:?}", want), "first_parse": format!("{:?}", seen[0]), "second_parse": format!("{:?}", seen[1])}),
+        ));
+    }
+    None
+}
+
 fn case_planted(t: &mut Tape, st: &mut Stats) -> Verdict {
+    if t.chance(1, 10) {
+        st.class("text-including-a-malformed-file-parsed-twice");
+        if let Some(v) = broken_include_twice(t) {
+            return v;
+        }
+    }
     let n = 1 + t.len(60);
     let k = t.below(n); // 0-based position of the malformed line
     let (bad, expect_kind, tag) = malformed_line(t);
